@@ -264,6 +264,34 @@ def replay(path):
         print(json.dumps(d)[:1500])
         print("replay: this history is regenerated from the seed; re-run ./check C15 with the same VERIF_SEED")
         return 1
+    if "serial" in d and "pool" in d:
+        # serial vs multiprocessing pool (vs the process confined to one cpu): redo the comparison on the recorded input
+        pred, ref = common.arr_from_json(d["pred"]), common.arr_from_json(d["ref"])
+        c = dict(d["cfg"])
+        common.serial_pool(True)
+        a = canon_out(impl.evaluate(impl.make_evaluator(c), pred.copy(), ref.copy()))
+        common.serial_pool(False)
+        try:
+            b = canon_out(impl.evaluate(impl.make_evaluator(c), pred.copy(), ref.copy()))
+            b1 = b
+            if d.get("one_cpu") and hasattr(os, "sched_setaffinity"):
+                allowed = os.sched_getaffinity(0)
+                try:
+                    os.sched_setaffinity(0, {sorted(allowed)[0]})
+                    b1 = canon_out(impl.evaluate(impl.make_evaluator(c), pred.copy(), ref.copy()))
+                finally:
+                    os.sched_setaffinity(0, allowed)
+        finally:
+            common.serial_pool(True)
+        print("serial:", str(a)[:400])
+        print("pool:  ", str(b)[:400])
+        if d.get("one_cpu"):
+            print("one cpu:", str(b1)[:400])
+        if a != b or a != b1:
+            print("PROPERTY FAILS ON THE IMPLEMENTATION: the result depends on how the per-instance work is distributed")
+            return 1
+        print("same")
+        return 0
     cfg = dict(d["cfg"])
     if cfg.get("groups_spec"):
         from harness.props.c12 import groups_from_spec
